@@ -16,7 +16,7 @@ class C05(PropBase):
             "get_error() is the injected object, dict(cells) of every cells equals the evaluator's held map, the retry "
             "returns the fault-free value and re-executes only what had not completed, nothing is left executing, sanity "
             "checks pass; one run in eight instead drives recursive chains (self, mutual, through uncached cells, by attribute, "
-            "inside a comprehension) against a configured recursion limit: shorter chains must evaluate, longer ones raise the "
+            "inside a comprehension or a generator) against a configured recursion limit (the interpreter's own C-nesting cap, where it comes first, is counted as an injected fault and judged as one): shorter chains must evaluate, longer ones raise the "
             "depth error leaving nothing of the failing chain held, and later requests succeed once a prefix is held; "
             "non-trivial = the fault escaped at depth >= 2 with at least one completed element (or a chain exceeded the limit); "
             "distinct = distinct event-log digest")
